@@ -398,9 +398,24 @@ def DX():
         # named members of a collection in a name-suppressing position
         b2({"t": "Branch", "ch": [{"t": "Sum", "q": "y", "qk": "named"}, {"t": "Maximize", "q": "y", "qk": "named"}]}),
         cat({"t": "UntypedLabel", "ch": {"a": {"t": "Average", "q": "y", "qk": "named"}, "b": cnt}}),
+        # a Bin with different aggregators in its flow slots as the *content* of another container (made by zero())
+        cat({"t": "Bin", "p": BIN_CFG[0], "q": "x", "v": cnt, "uf": sy, "of": avg}),
+        sp({"t": "Bin", "p": BIN_CFG[0], "q": "y", "v": cnt, "uf": {"t": "Sum", "q": "x"}, "of": mn}),
+        # a Select as the content of every binning type
+        stk3(sel(sy)), irr4(sel(cnt)), cen5(sel(cnt)), sp(sel(cnt)), cat(sel(sy)),
+        # nested keyed collections whose key sets differ
+        {"t": "UntypedLabel", "ch": {"a": {"t": "UntypedLabel", "ch": {"x": cnt, "y": sy}},
+                                     "b": {"t": "UntypedLabel", "ch": {"z": cnt}}}},
+        {"t": "Label", "ch": {"p": {"t": "UntypedLabel", "ch": {"x": cnt, "y": sy}},
+                              "q": {"t": "UntypedLabel", "ch": {"z": cnt, "y": sy}}}},
         # centres given in no particular order (the partition is defined by the set of centres)
         {"t": "CentrallyBin", "p": [3.0, 0.0, 1.0], "q": "x", "v": cnt},
         {"t": "CentrallyBin", "p": [1.0, 3.0, 0.0], "q": "x", "v": sy, "nf": cnt},
+        # members named like fields of the serialisation format / parameters of the constructors
+        {"t": "Label", "ch": {"entries": sx, "data": sy}},
+        {"t": "UntypedLabel", "ch": {"entries": cnt, "pairsAsDict": sy, "type": avg}},
+        # a repeated centre (two bins with the same centre: data below it go to the first, data from it on to the second)
+        {"t": "CentrallyBin", "p": [1.0, 1.0, 2.0], "q": "x", "v": sy},
     ]
     return out
 
